@@ -31,6 +31,23 @@ def _body(f):
     return [s for s in f.body if not (isinstance(s, ast.Expr) and isinstance(s.value, ast.Constant))]
 
 
+def _names(e):
+    """Variable names (after the translator's flattening of self.x to self_x) an expression mentions."""
+    out = set()
+    for n in ast.walk(e):
+        if isinstance(n, ast.Attribute) and isinstance(n.value, ast.Name):
+            out.add(f'{n.value.id}_{n.attr}')
+        elif isinstance(n, ast.Name) and not any(isinstance(p, ast.Attribute) and p.value is n for p in ast.walk(e)):
+            out.add(n.id)
+    return out
+
+
+def _only_mentions(e, allowed, what):
+    extra = _names(e) - set(allowed)
+    if extra:
+        raise Unsupported(f'{what} mentions {sorted(extra)}; expected only {sorted(allowed)}')
+
+
 def _guard_of(qual):
     f = find_function(tree(SRC), qual)
     if [a.arg for a in f.args.args] != ['self', 'time_']:
@@ -131,19 +148,23 @@ def k_window():
             and len(pop.value.args) == 1 and isinstance(pop.value.args[0], ast.Constant)
             and pop.value.args[0].value == 0):
         raise Unsupported('trimming loop body is not `self._window.pop(0)`')
-    cond, ty = Tr().expr(_Len().visit(loop.test))
+    test = _Len().visit(loop.test)
+    _only_mentions(test, ['len_window', 'self__window_duration'], 'trimming condition')
+    cond, ty = Tr().expr(test)
     if ty != 'B':
         raise Unsupported('trimming condition is not boolean')
     out = ('Definition win_trim_cond (len_window : Z) (self__window_duration : Z) : bool :=\n'
            f'  {cond}.\n')
     # slide counter
     a = only([s for s in body if _classify(s) == 5], 'assignment to self._slide_counter')
+    _only_mentions(a.value, ['self__slide_counter', 'self__slide_duration'], 'slide counter update')
     out += '\n' + Tr().function('win_counter_next', [('self__slide_counter', 'Z'), ('self__slide_duration', 'Z')],
                                 [ast.Return(value=a.value)], 'ERROR', ret_type='Z')
     # skip test
     sk = only([s for s in body[1:] if isinstance(s, ast.If)], 'if statement after the guard')
     if not (not sk.orelse and len(sk.body) == 1 and isinstance(sk.body[0], ast.Return) and sk.body[0].value is None):
         raise Unsupported('slide test is not `if <cond>: return`')
+    _only_mentions(sk.test, ['self__slide_counter'], 'slide test')
     c, ty = Tr().expr(sk.test)
     if ty != 'B':
         raise Unsupported('slide test is not boolean')
